@@ -195,6 +195,16 @@ static std::vector<Call> misuse() {
     add("DataFrame reads of unwritten rows", [](File &f) { DataFrame d = B(f).getDataFrame("fr"); for (ndsize_t r = 0; r < 5; r++) { vf::guarded([&] { d.readRow(r); }); vf::guarded([&] { d.readCell(r, 2); }); vf::guarded([&] { d.readCell(r, "c2"); }); vf::guarded([&] { d.readCells(r, {"c2", "c0", "nope"}); }); }
         vf::guarded([&] { std::vector<std::string> s; d.readColumn("c2", s, true); }); vf::guarded([&] { std::vector<std::string> s(1); d.readColumn(2, s, false, 2); }); vf::guarded([&] { std::vector<double> s; d.readColumn("c0", s, true, 99); });
         vf::guarded([&] { std::vector<double> s(2); d.readColumn("c0", s, (size_t)100, false); }); vf::guarded([&] { std::vector<double> s; d.readColumn("c2", s, true); }); vf::guarded([&] { std::vector<int64_t> s; d.readColumn(99, s, true); }); });
+    add("DataFrame column transfers: vector length x offset x count grid", [](File &f) { DataFrame d = B(f).getDataFrame("fr");
+        for (size_t n = 0; n <= 4; n++) for (ndsize_t off = 0; off <= 4; off++) for (size_t cnt = 0; cnt <= 5; cnt++) {
+            vf::guarded([&] { d.writeColumn("c0", std::vector<double>(n, 1.0), off, cnt); });
+            vf::guarded([&] { d.writeColumn(1u, std::vector<int64_t>(n, 1), off, cnt); });
+            vf::guarded([&] { d.writeColumn("c2", std::vector<std::string>(n, "s"), off, cnt); });
+            vf::guarded([&] { std::vector<double> v(n); d.readColumn("c0", v, cnt, false, off); });
+            vf::guarded([&] { std::vector<std::string> v(n); d.readColumn("c2", v, cnt, false, off); });
+            vf::guarded([&] { std::vector<int64_t> v(n); d.readColumn(1u, v, cnt, true, off); });
+            if (cnt == 0) { vf::guarded([&] { std::vector<double> v(n); d.readColumn("c0", v, false, off); }); vf::guarded([&] { std::vector<std::string> v(n); d.readColumn(2u, v, true, off); }); }
+        } });
     add("DataFrame writes out of contract", [](File &f) { DataFrame d = B(f).getDataFrame("fr"); vf::guarded([&] { d.writeRow(0, {}); }); vf::guarded([&] { d.writeRow(0, {Variant(1.0)}); }); vf::guarded([&] { d.writeRow(0, std::vector<Variant>(9, Variant(1.0))); }); vf::guarded([&] { d.writeRow(99, {Variant(1.0), Variant(int64_t(1)), Variant("s"), Variant(false)}); });
         vf::guarded([&] { d.writeCell(0, 0, Variant("string into double")); }); vf::guarded([&] { d.writeCell(0, 2, Variant(1.0)); }); vf::guarded([&] { d.writeCell(0, 99, Variant(1.0)); }); vf::guarded([&] { d.writeCells(0, {}); }); vf::guarded([&] { d.writeCells(0, {Cell("nope", Variant(1.0))}); });
         vf::guarded([&] { d.writeColumn("c0", std::vector<double>{1, 2}, 0, 5); }); vf::guarded([&] { d.writeColumn("c0", std::vector<double>{}, 0, 0); }); vf::guarded([&] { d.writeColumn("c0", std::vector<double>(10, 1.0), 2); }); vf::guarded([&] { d.writeColumn("c2", std::vector<double>{1.0}); });
